@@ -10,6 +10,7 @@ pub mod c05;
 pub mod c06;
 pub mod c07;
 pub mod c08;
+pub mod c08s;
 pub mod c09;
 pub mod c10;
 pub mod c10f;
